@@ -43,12 +43,17 @@ func nameOK(s string) bool {
 	if s == "" {
 		return false
 	}
+	alnum := false
 	for _, c := range s {
-		if !(c >= 'a' && c <= 'z' || c >= 'A' && c <= 'Z' || c >= '0' && c <= '9') {
+		switch {
+		case c >= 'a' && c <= 'z' || c >= 'A' && c <= 'Z' || c >= '0' && c <= '9':
+			alnum = true
+		case c == '.' || c == '~': // `a.tmp`, `b~`: names an implementation might take for its own temporaries
+		default:
 			return false
 		}
 	}
-	return true
+	return alnum // not `.`, `..`
 }
 
 // parsePath: `-` is the root (""), otherwise names joined by `/`.
